@@ -116,6 +116,9 @@ def _is_plain_or_bytes(v):
     return _is_plain_value(v)
 
 
+UNSANITIZED = []
+
+
 def _sanitize(world, cfg, node=None):
     """Reset values that are outside the quantifier (not representable at all)."""
     cc = world.cc
@@ -162,6 +165,8 @@ def _sanitize(world, cfg, node=None):
                     break
                 except Exception:
                     continue
+            else:
+                UNSANITIZED.append(key)  # no replacement is acceptable to this field: the state stays out of domain
     for key in list(cfg._fields):  # dynamic extras
         if not _is_plain_value(cfg._data.get(key)):
             cfg._data[key] = None
@@ -364,7 +369,11 @@ def run_case(case, R):
                     R.label("dynamic-field")
                 except Exception:
                     pass
+        del UNSANITIZED[:]
         _sanitize(world, cfg)
+        if UNSANITIZED:
+            R.label("discarded:unrepresentable-value")
+            return
         errors = cfg.validate(collect_errors=True)
         if errors:
             R.label("discarded:invalid-state")
